@@ -5,7 +5,7 @@ from ..core import core_oracle
 
 PROP = 'C01'
 LEVEL = 'exploration'
-BUDGET = {'quick': 3200, 'thorough': 64000}
+BUDGET = {'quick': 12800, 'thorough': 256000}
 RULE = ('cases = well-formed chart (DESIGN.md 2) with a table guard on every transition + history '
         'of 6-20 queue/advance/step ops, every step with a fresh guard valuation (p=0.2 all true, '
         'p=0.1 all false); internal events sent by actions. Per step the fired multiset, the '
@@ -22,9 +22,11 @@ def strategy(tier):
 
     @st.composite
     def cases(draw):
-        spec = draw(gen.charts(max_states=16 if big else 12, p_sends=0.25, p_eventless=0.25,
-                               dup_tr=0.1))
-        ops = draw(gen.histories(spec, 6, 20, advances=True, delays=True))
+        # dense competition: orthogonal roots, few event names, several transitions (with
+        # different priorities) on one source
+        spec = draw(gen.charts(max_states=16 if big else 12, p_sends=0.2, p_eventless=0.2,
+                               dup_tr=0.3, p_orth_root=0.45, n_events=2, min_tr=6, max_tr=16))
+        ops = draw(gen.histories(spec, 6, 20, n_events=2, advances=True, delays=True))
         return {'spec': spec, 'ops': ops}
     return cases()
 
